@@ -227,6 +227,11 @@ func FetchType(typ reflect.Type, typMap map[string]reflect.Type) {
 		return
 	}
 
+	// a type seen before has been walked already: self-referential types would recurse forever
+	if _, ok := typMap[typ.Name()]; ok {
+		return
+	}
+
 	typMap[typ.Name()] = typ
 	for i := 0; i < typ.NumField(); i++ {
 		FetchType(typ.Field(i).Type, typMap)
